@@ -50,7 +50,7 @@ def project_tree(idx, id2idx=None):
             "endFileOffset": idx["endFileOffset"], "itemsPerSlot": idx["itemsPerSlot"], "offset": idx["offset"]}
 
 
-def project_image(img, rest_ids=None):
+def project_image(img, rest_ids=None, idspace=False):
     """whole file; rest_ids: dict rest-text -> entry id (bigBed)"""
     if img is None or "error" in img or "header" not in img:
         return {"error": 1}
@@ -59,6 +59,9 @@ def project_image(img, rest_ids=None):
     ct = img.get("chromTree") or {}
     chroms = ct.get("chroms", [])
     id2idx = {c["id"]: chrom_idx(c["key"]) for c in chroms}
+    if idspace:
+        # blocks / index entries keep the file's own chromosome ids (+1), not the name's model index
+        id2idx = {c["id"]: c["id"] + 1 for c in chroms}
     err = 0
     if "error" in ct:
         err = 1
